@@ -76,6 +76,32 @@ C07_Holds(types, roots, declared) ==
 TypeDeps(types, n) == {types[n].fields[i].to : i \in {j \in DOMAIN types[n].fields : OnWire(types[n].fields[j].ctx)}} \cap DOMAIN types
 
 -----------------------------------------------------------------------------
+(* Beyond the listed properties (X01): the dependency visualisation agrees with the analysis.              *)
+(* dependency-graph.dot has one green node per *resolved* type and one edge per recorded dependency.        *)
+(* Intended: nodes = the emitted types (Reachable).  As built (deviation VizShowsErrorArmTypes): types       *)
+(* that are reachable only through the error arm of a Result are resolved and drawn although no binding    *)
+(* mentions them, so Reachable \subseteq nodes \subseteq ReachableAll; edges are exact over the drawn nodes, *)
+(* an edge may additionally point at a name that is not drawn (a non-serde field type).                    *)
+AllRootNames(roots) == {roots[i].to : i \in DOMAIN roots}
+RECURSIVE ReachTypesAll(_, _)
+ReachTypesAll(types, S) ==
+    LET next == S \cup UNION { {types[n].fields[i].to : i \in DOMAIN types[n].fields}
+                               : n \in {m \in S : m \in DOMAIN types /\ types[m].serde} }
+    IN IF next = S THEN S ELSE ReachTypesAll(types, next)
+ReachableAll(types, roots) == {n \in ReachTypesAll(types, AllRootNames(roots)) : n \in DOMAIN types /\ types[n].serde}
+AllDeps(types, n) == {types[n].fields[i].to : i \in DOMAIN types[n].fields}
+
+X01_Holds(types, roots, tnodes, tedges, cedges) ==
+    LET R  == Reachable(types, roots)
+        RA == ReachableAll(types, roots)
+        N  == AsSet(tnodes)
+    IN /\ R \subseteq N /\ N \subseteq RA
+       /\ Cardinality(N) = Len(tnodes)
+       /\ \A e \in AsSet(tedges) : e[1] \in N
+       /\ {e \in AsSet(tedges) : e[2] \in N} = {e \in N \X N : e[2] \in AllDeps(types, e[1])}
+       /\ \A e \in AsSet(cedges) : e[2] \in N
+
+-----------------------------------------------------------------------------
 (* C12: listeners                                                            *)
 
 \* emits : <<[name |-> event name, receiver |-> class, frames |-> <<enclosing frames>>, placed |-> tail form, lit |-> BOOLEAN]>>
